@@ -77,8 +77,15 @@ static std::string hex(const uint8_t* p, size_t n) { std::string s; char b[4]; f
 
 // "{vex} " / "{vex3} " / "{evex} " in a disassembly names the ENCODING the decoder saw (LLVM prints {vex} for the VEX form of AVX-VNNI/IFMA
 // instructions), not the instruction or its operands: with the encoding options of this harness both choices occur on purpose.
+// memory-operand size keywords ("dword ptr "): a decoder always prints them, an unsized request does not carry them
+static std::string strip_size(std::string t) {
+  for (const char* k : {"xmmword ptr ", "ymmword ptr ", "zmmword ptr ", "tbyte ptr ", "fword ptr ", "qword ptr ", "dword ptr ", "word ptr ", "byte ptr "}) { size_t p; while ((p = t.find(k)) != std::string::npos) t.erase(p, strlen(k)); }
+  return t;
+}
 static std::string strip_enc(std::string t) {
   for (const char* k : {"{vex} ", "{vex3} ", "{vex2} ", "{evex} "}) { size_t p; while ((p = t.find(k)) != std::string::npos) t.erase(p, strlen(k)); }
+  // libopcodes appends the absolute target of a rip-relative operand ("# 0x10a"): it depends on the instruction LENGTH (vex3() adds a byte)
+  size_t h = t.find(" # 0x"); if (h != std::string::npos) { size_t e = t.find(';', h); t.erase(h, e == std::string::npos ? std::string::npos : e - h); }
   return t;
 }
 
@@ -235,13 +242,14 @@ static void run_case(const vh::Case& c, vh::Ctx& ctx, bool twin, bool* twin_outl
   else ctx.cls("llvm_cannot_decode");
   if (oA.count) { if (oA.consumed != An) { j2_len_bad = true; j2_detail = "opcodes decodes only " + std::to_string(oA.consumed) + " of " + std::to_string(An) + " bytes: '" + oA.text + "'"; } }
   else ctx.cls("opc_cannot_decode");
-  bool l_matches_template = false;
+  bool l_matches_template = false, llvm_roundtrip_bad = false;
   if (asm_ok) {
     ctx.cls("llvm_assembled");
     SeqText dL = llvm_seq(mc, L.data(), L.size());
     SeqText oL = opc_seq(mode, L.data(), L.size());
     xt::Verdict tl = xt::judge(g_db, x, L.data(), L.size());
     l_matches_template = tl.status == xt::kMatch;
+    if (dL.consumed == L.size() && norm_text(strip_size(strip_enc(dL.text)), opsize, addrbits) != norm_text(strip_size(text), opsize, addrbits)) llvm_roundtrip_bad = true;
     if (dA.count && !j1_len_bad && dL.consumed == L.size()) {
       std::string na = norm_text(strip_enc(dA.text), opsize, addrbits), nl = norm_text(strip_enc(dL.text), opsize, addrbits);
       if (na != nl) { j1_text_bad = true; j1_detail = "llvm decodes asmjit bytes as '" + dA.text + "' but its own encoding " + hex(L.data(), L.size()) + " of the same text as '" + dL.text + "'"; }
@@ -259,8 +267,13 @@ static void run_case(const vh::Case& c, vh::Ctx& ctx, bool twin, bool* twin_outl
   // LLVM 14's ASSEMBLER does not compress disp8 of an EVEX instruction in 16-bit addressing (it emits the raw byte, which its own decoder and
   // libopcodes then read as disp8*N), so its encoding is no reference there. A DB-row typo is then outvoted by the two decoders alone: LLVM
   // decodes AsmJit's bytes to exactly the requested text and libopcodes consumes them completely.
+  // LLVM 14's decoder reads its own 2-byte-VEX encoding behind a segment + 67h prefix as the SSE instruction ("movupd" for 26 67 C5 79 11 ..):
+  // when LLVM does not round-trip its own assembly but decodes AsmJit's bytes to exactly the request, and libopcodes reads AsmJit's and
+  // LLVM's bytes alike, the DB row is the outlier as well.
+  if (tv.status == xt::kMismatch && !db_outlier && asm_ok && j1_text_bad && j2_agree && llvm_roundtrip_bad && dA.count && !j1_len_bad &&
+      norm_text(strip_size(strip_enc(dA.text)), opsize, addrbits) == norm_text(strip_size(text), opsize, addrbits)) { db_outlier = true; ctx.cls("db_row_outvoted_llvm_decoder_not_self_consistent"); }
   if (tv.status == xt::kMismatch && !db_outlier && addrbits == 16 && dA.count && !j1_len_bad && oA.count && !j2_len_bad &&
-      norm_text(strip_enc(dA.text), opsize, addrbits) == norm_text(text, opsize, addrbits)) { db_outlier = true; ctx.cls("db_row_outvoted_by_decoders_addr16_evex"); }
+      norm_text(strip_size(strip_enc(dA.text)), opsize, addrbits) == norm_text(strip_size(text), opsize, addrbits)) { db_outlier = true; ctx.cls("db_row_outvoted_by_decoders_addr16_evex"); }
   if (twin) { if (twin_outlier) *twin_outlier = db_outlier; if (twin_bytes) twin_bytes->assign(A, A + An); return; }
   if (tv.status == xt::kMismatch && !db_outlier && has_u32_abs) {
     // LLVM cannot assemble an absolute address of [2^31, 2^32) in 64-bit mode, so it cannot outvote a DB row for it. Ask about the twin
